@@ -159,6 +159,10 @@ type c27Case struct {
 	Vals    int         `json:"vals"`
 	HighS   int         `json:"high_s"` // bit i: input i signed with the high-S representative
 	Corrupt *c27Corrupt `json:"corrupt,omitempty"`
+	// Shared: all inputs spend different outputs of ONE previous transaction (a wallet
+	// transaction with several outputs of different script types) instead of one
+	// funding transaction per input.
+	Shared bool `json:"shared,omitempty"`
 }
 
 func (c c27Case) String() string {
@@ -167,6 +171,9 @@ func (c c27Case) String() string {
 		ks = append(ks, c27KindName[k])
 	}
 	s := fmt.Sprintf("in=[%s] outs=%d key=%d vals=%d highS=%b", strings.Join(ks, ","), c.Outs, c.Key, c.Vals, c.HighS)
+	if c.Shared {
+		s += " shared-prev-tx"
+	}
 	if c.Corrupt != nil {
 		s += fmt.Sprintf(" corrupt=%s(%d,%d)", c.Corrupt.Type, c.Corrupt.P, c.Corrupt.Q)
 	}
@@ -174,6 +181,12 @@ func (c c27Case) String() string {
 }
 
 var c27Values = []int64{546, 100000, 2100000000000000, 1, 12345678, 99999}
+
+type c27SharedIn struct {
+	idx    uint32
+	value  int64
+	redeem []byte
+}
 
 type c27Prev struct {
 	script []byte
@@ -197,6 +210,8 @@ func c27Build(c c27Case) (*c27Built, error) {
 	chain := &c27Chain{txs: map[Hash]*Transaction{}}
 	b := &c27Built{builder: NewTransactionBuilder(chain), wallet: wallet, other: other}
 	total := int64(0)
+	var shared *Transaction
+	var sharedInputs []c27SharedIn
 	for i, kind := range c.Kinds {
 		var pk, redeem []byte
 		switch kind {
@@ -213,7 +228,26 @@ func c27Build(c c27Case) (*c27Built, error) {
 		}
 		value := c27Values[(i+c.Vals)%len(c27Values)]
 		idx := uint32((i + c.Vals) % 3)
-		funding := &Transaction{
+		var funding *Transaction
+		if c.Shared {
+			// one previous transaction for all inputs: output i belongs to input i
+			if shared == nil {
+				shared = &Transaction{
+					Version: 1,
+					Inputs: []*TransactionInput{{
+						Outpoint:        &TransactionOutpoint{TransactionHash: Hash{0x77, 0xf0, byte(c.Vals)}, OutputIndex: 0},
+						SignatureScript: []byte{0x51},
+						Sequence:        0xffffffff,
+					}},
+				}
+			}
+			shared.Outputs = append(shared.Outputs, &TransactionOutput{Value: value, PublicKeyScript: pk})
+			sharedInputs = append(sharedInputs, c27SharedIn{uint32(i), value, redeem})
+			b.prevs = append(b.prevs, c27Prev{pk, value})
+			total += value
+			continue
+		}
+		funding = &Transaction{
 			Version: 1,
 			Inputs: []*TransactionInput{{
 				Outpoint:        &TransactionOutpoint{TransactionHash: Hash{byte(i + 1), 0xf0, byte(c.Vals)}, OutputIndex: uint32(i)},
@@ -246,6 +280,24 @@ func c27Build(c c27Case) (*c27Built, error) {
 		}
 		b.prevs = append(b.prevs, c27Prev{pk, value})
 		total += value
+	}
+	if shared != nil {
+		chain.txs[shared.Hash()] = shared
+		for _, in := range sharedInputs {
+			utxo := &UnspentTransactionOutput{
+				Outpoint: &TransactionOutpoint{TransactionHash: shared.Hash(), OutputIndex: in.idx},
+				Value:    in.value,
+			}
+			var err error
+			if in.redeem != nil {
+				err = b.builder.AddScriptHashInput(utxo, in.redeem)
+			} else {
+				err = b.builder.AddPublicKeyHashInput(utxo)
+			}
+			if err != nil {
+				return nil, fmt.Errorf("input %d (shared previous transaction): %v", in.idx, err)
+			}
+		}
 	}
 	// outputs: first to the wallet (P2WPKH), second to somebody else (P2PKH)
 	fee := int64(len(c.Kinds)) * 40
@@ -459,6 +511,13 @@ func TestVerifC27Builder(t *testing.T) {
 						c27Run(r, c)
 						evals++
 						r.Distinct("h|" + c.String())
+						if len(mix) >= 2 && hs == 0 {
+							// the same mix spending different outputs of one previous transaction
+							cs := c27Case{Kinds: mix, Outs: outs, Key: key, Vals: v, HighS: hs, Shared: true}
+							c27Run(r, cs)
+							evals++
+							r.Distinct("h|" + cs.String())
+						}
 					}
 				}
 				for _, cor := range c27Corruptions(len(mix)) {
